@@ -36,7 +36,7 @@ RULE_PREFIXES = ("_gettsim.taxes", "_gettsim.transfers", "_gettsim.social_insura
 
 
 def frame_part(rep):
-    an = frame.Analyzer("/repo/src/_gettsim")
+    an = frame.Analyzer(str(venv.SRC))
     # L1
     n = 0
     bad = []
